@@ -325,7 +325,31 @@ def gen_config(ch: Choices, model: dict, opts: Optional[dict] = None) -> dict:
         cfg["var_params"] = cost_table(ch, model, "cfg.varcost")
     if dom_h == 4:
         cfg["dom_params"] = cost_table(ch, model, "cfg.domcost")
+    if opts.get("decision", True):
+        # every domain stays a decision domain, but the list is given in another order (it is the order in which the
+        # variable heuristics scan), or without the domains that are singletons in the model (nothing to decide there)
+        dd = ch.choose(4, "cfg.dd")
+        n = len(model["shr"])
+        if dd >= 2 and n >= 2:
+            if n <= 12:
+                doms = ch.shuffle(list(range(n)), "cfg.dd.perm")
+            else:
+                r = ch.choose(n, "cfg.dd.rot")
+                doms = list(range(r, n)) + list(range(r))
+                if ch.chance(1, 2, "cfg.dd.rev"):
+                    doms.reverse()
+            if dd == 3:
+                doms = [d for d in doms if model["shr"][d][0] < model["shr"][d][1]] or doms
+            cfg["decision"] = doms
     return cfg
+
+
+def cfg_str(cfg: dict) -> str:
+    s = f"({cfg['cons']}, {cfg['var_h']}, {cfg['dom_h']})"
+    if cfg.get("decision") is not None:
+        d = cfg["decision"]
+        s += f" decision_domains={d if len(d) <= 16 else str(d[:8])[:-1] + ', ...] (' + str(len(d)) + ')'}"
+    return s
 
 
 DEFAULT_CONFIG = {"cons": 0, "var_h": 0, "dom_h": 0, "var_params": [[]], "dom_params": [[]]}
